@@ -37,6 +37,8 @@ class Projection:
             upper = np.inner(dbezui, bezui)
             lower = np.inner(ddbezui, bezui)
             lower += np.inner(dbezui, dbezui)
+            if lower == 0:
+                return [initparam]
             diff = upper / lower
             initparam -= diff
             if initparam < umin:
